@@ -36,6 +36,7 @@ type XExpr struct {
 type XRule struct {
 	Body  *XExpr // XSeq (possibly empty)
 	Arrow string // rule-level "-> Name" ("" = use the nonterminal's default)
+	Action string // end-of-rule semantic action (does not change the language or the events)
 }
 
 // XNT is a nonterminal definition.
@@ -288,6 +289,10 @@ func RandXGrammar(r *rand.Rand, opt XGenOptions) *XGrammar {
 			if len(ru.Body.Sub) == 0 && !opt.NoArrows && r.Intn(2) == 0 {
 				ru.Arrow = x.newType()
 			}
+			if len(ru.Body.Sub) == 0 && r.Intn(2) == 0 {
+				// a nonterminal that is empty only through an alternative carrying a semantic action
+				ru.Action = fmt.Sprintf("{ vlog(\"empty %s\") }", n.Name)
+			}
 		}
 	}
 	g.Inputs = []Input{{NT: 0}}
@@ -296,7 +301,7 @@ func RandXGrammar(r *rand.Rand, opt XGenOptions) *XGrammar {
 		added := false
 		for i := range g.Nonterms {
 			if !reach[i] {
-				g.Inputs = append(g.Inputs, Input{NT: i})
+				g.Inputs = append(g.Inputs, Input{NT: i, NoEoi: r.Intn(3) == 0})
 				added = true
 				break
 			}
@@ -441,9 +446,14 @@ func (g *XGrammar) Text(pkg string) string {
 				b.WriteString("  | ")
 			}
 			if len(ru.Body.Sub) == 0 {
-				b.WriteString("%empty")
+				if ru.Action == "" {
+					b.WriteString("%empty")
+				}
 			} else {
 				g.exprText(ru.Body, &b)
+			}
+			if ru.Action != "" {
+				b.WriteString(" " + ru.Action)
 			}
 			if ru.Arrow != "" {
 				fmt.Fprintf(&b, " -> %s", ru.Arrow)
